@@ -88,9 +88,10 @@ type Focus struct {
 }
 
 type tableRows struct {
-	cols  []string          // non-generated columns
+	cols  []string          // all visible columns, generated ones included
 	types map[string]string // declared types
 	null  map[string]bool
+	gen   map[string]bool // generated columns (their values are computed, not stored by the user)
 	rows  []map[string]string
 }
 
@@ -108,7 +109,7 @@ func readRows(db *sql.DB) map[string]*tableRows {
 	}
 	rs.Close()
 	for _, n := range names {
-		tr := &tableRows{types: map[string]string{}, null: map[string]bool{}}
+		tr := &tableRows{types: map[string]string{}, null: map[string]bool{}, gen: map[string]bool{}}
 		cs, err := db.Query("SELECT name, lower(type), \"notnull\", hidden FROM pragma_table_xinfo(?) ORDER BY cid", n)
 		if err != nil {
 			simkit.Harnessf("xinfo: %v", err)
@@ -117,8 +118,12 @@ func readRows(db *sql.DB) map[string]*tableRows {
 			var c, t string
 			var nn, h int
 			cs.Scan(&c, &t, &nn, &h)
-			if h != 0 {
+			if h == 1 {
 				continue
+			}
+			if h >= 2 {
+				tr.gen[c] = true
+				t = strings.TrimSpace(strings.Replace(t, "generated always", "", 1))
 			}
 			tr.cols = append(tr.cols, c)
 			tr.types[c] = t
@@ -829,6 +834,14 @@ func checkRows(r *simkit.Run, before, after map[string]*tableRows, changes []sch
 		for _, c := range b.cols {
 			if a.types[c] == "" || a.types[c] != b.types[c] {
 				continue
+			}
+			// A column that is generated afterwards holds what its expression says, not what it held;
+			// a column that was generated and becomes a regular one keeps the values it had.
+			if a.gen[c] {
+				continue
+			}
+			if b.gen[c] {
+				r.Probe("generated-column-became-regular")
 			}
 			// A nullable column that became NOT NULL cannot keep its NULLs.
 			if b.null[c] && !a.null[c] {
